@@ -6,7 +6,8 @@ error kinds and codes.
 
 * `case … seq` + step lines: one thread's history; the model column is the code the state machine
   reports after the step, the spec column is `specLast` (scan of the history since `sourmash_init`).
-* `call <fn> <cls> <cmp|nocmp> <seed>`: one export in a fresh process after `sourmash_init`.
+* `call <fn> <cls> <cmp|nocmp> <seed>`: one export in a fresh process after `sourmash_init`
+  (classes `…_noinit`: without it).
   `bodyOutcome` says what the body of `<fn>` does on arguments of class `<cls>` (value / which
   `Err` / panic); whether `<fn>` has a landing pad comes from the generated export table.
   Model column: the code as it is (an unguarded panic is `abort`); spec column: what C20 demands
@@ -46,6 +47,9 @@ def seqCall : String → Option (Call K)
   | "ng_from_buffer_empty" => some (.exported true (.err .NifflerError))
   | "add_seq_hi_invalid" => some (.exported true (.err .InvalidDNA))
   | "hll_save_bad_utf8_path" => some (.exported true (.err .Utf8Error))
+  | "ng_from_path_missing_long" => some (.exported true (.err .NifflerError))
+  | "load_sigs_long_moltype" => some (.exported true .panic)
+  | "load_path_long_moltype" => some (.exported true .panic)
   | "get_abunds_no_track" => some (.exported true .panic)
   | "hll_update_mh_default" => some (.exported true .panic)
   | "load_sigs_bad_moltype" => some (.exported true .panic)
@@ -66,6 +70,7 @@ def seqCall : String → Option (Call K)
   | "ok_aa_class_hi" => some (.exported false (.ok ()))
   | "ok_add_protein_hi" => some (.exported true (.ok ()))
   | "ok_set_name_hi" => some (.exported true (.ok ()))
+  | "ok_set_name_long" => some (.exported true (.ok ()))
   | _ => none
 
 def mismatchKind : String → Option K
@@ -82,11 +87,51 @@ def errOr (k : Option K) : Out := match k with | some k => .err k | none => .ok 
     two-byte UTF-8 character, and NUL where the length travels separately -/
 def byteClasses : List String := ["b00", "b7f", "b80", "bff", "utf8"]
 
+/-- does the child skip `sourmash_init` (default panic hook)? -/
+def isNoinit (cls : String) : Bool := (cls.splitOn "_").getLast? == some "noinit"
+
+/-- long text classes `[<param>_]long_<kind>_<len>[_noinit]`: which parameter (`""` = the function's
+    first / only text parameter, `moltype`, or `missing` = a long path with nothing there) and whether
+    the text has multi-byte UTF-8 characters (`u2`, `u2o`, `u3`, … ) or is ASCII valid for the
+    parameter's domain (`a`).  The length (255 … 1000 bytes) never changes the outcome. -/
+def longClass (cls : String) : Option (String × Bool) :=
+  let ws := cls.splitOn "_"
+  let ws := if ws.getLast? == some "noinit" then ws.dropLast else ws
+  match ws.reverse with
+  | _len :: kind :: "long" :: pre => some ("_".intercalate pre.reverse, kind != "a")
+  | _ => none
+
+/-- what the body does on a long text argument -/
+def longOutcome (f pre : String) (multiByte : Bool) : Out :=
+  let e (k : K) : Out := .err k
+  if pre == "moltype" then .panic                       -- unknown molecule type: `unimplemented!("{v}")` echoes it
+  else if pre == "missing" then
+    match f with
+    | "zipstorage_new" => e .IOError
+    | "revindex_new_with_paths" => .panic
+    | _ => e .NifflerError
+  else match f with
+    -- non-ASCII bytes are not DNA; the ASCII class is valid DNA of that length
+    | "hll_add_sequence" | "kmerminhash_add_sequence" | "kmerminhash_seq_to_hashes" | "signature_add_sequence" =>
+      if multiByte then e .InvalidDNA else .ok ()
+    | "sourmash_translate_codon" => e .InvalidCodonLength
+    -- text where a serialized sketch is expected: the signature `assert_eq!` of `from_reader`
+    | "hll_from_buffer" | "nodegraph_from_buffer" => .panic
+    -- only the first ksize bytes are hashed
+    | "nodegraph_count_kmer" | "nodegraph_get_kmer" => if multiByte then .panic else .ok ()
+    | "zipstorage_load" => e .StorageError
+    -- hashing any bytes, names, residues of any byte value, existing files at long paths, a serialized
+    -- signature with a long name: success
+    | _ => .ok ()
+
 /-- what the body of export `f` does on in-contract arguments of class `cls`
     (read off the native API: which `Err` it returns, where it panics) -/
 def bodyOutcome (f cls : String) : Out :=
   let e (k : K) : Out := .err k
   let isIn (l : List String) := l.contains cls
+  match longClass cls with
+  | some (pre, mb) => longOutcome f pre mb
+  | none =>
   match f with
   -- helpers / error channel
   -- every length other than 1, 2, 3 is refused; unknown codons (any bytes) translate to 'X'
@@ -202,7 +247,8 @@ def stepC20 (st : St) (ws : List String) : St × Resp :=
   | "case" :: _ => ({}, { model := "ok" })
   | ["call", f, cls, flag, _seed] =>
     let cmp := if flag == "cmp" then "same" else "-"
-    let s0 : Chan K := sourmashInit Chan.fresh
+    -- classes ending in `_noinit` never call `sourmash_init`: the default hook records nothing
+    let s0 : Chan K := if isNoinit cls then Chan.fresh else sourmashInit Chan.fresh
     match exportGuarded f with
     | none => (st, { model := "no-such-export", spec := "-" })
     | some g =>
